@@ -48,6 +48,10 @@ func c14Gen(t *rapid.T) interface{} {
 	for i := 0; i < nq; i++ {
 		q := []int{lib.IntN(t, 0, nv-1, "of")}
 		q = append(q, lib.Ints(t, 0, 4, 0, 200, "edits")...)
+		if lib.IntN(t, 0, 3, "tinyQuery") == 0 {
+			// a text of zero to three words (first element -1): too short for a single hash window
+			q = append([]int{-1}, lib.Ints(t, 0, 3, 0, 200, "tinyWords")...)
+		}
 		c.Queries = append(c.Queries, q)
 	}
 	g := lib.PickInt(t, []int{2, 3, 4, 8, 16}, "goroutines")
@@ -80,6 +84,9 @@ func c14Populate(c *c14Case) (*Classifier, error) {
 }
 
 func c14Query(c *c14Case, q []int) string {
+	if q[0] < 0 {
+		return c14Text(q[1:])
+	}
 	v := c.Values[q[0]%len(c.Values)]
 	w := append([]int{}, v...)
 	for _, e := range q[1:] {
